@@ -3,11 +3,40 @@
     vector the parser can produce -- the frame invariant (FrameInv.v, NoPanic.v): the innermost loop entered by the
     running call always records the height of the scope stack at its entry and the statement after its own closing
     continue, the program position is inside that loop's block, so break and continue cut the scope stack exactly to
-    the recorded height (C03_break_exact, C03_continue_exact).  At top level the same composition is covered by the
-    loops stream (the structured refinement theorem R of DESIGN.md is not proved). *)
-From Pakhi Require Import Base Float64 Syntax Tables Lexer Interp.
-From Pakhi.Proofs Require Import Scope Control WF WFOps Frames FrameInv NoPanic.
+    the recorded height (C03_break_exact, C03_continue_exact).  The top level is a frame too ([top_frame]: the whole vector,
+    one global scope below the blocks), and C03_frame_invariant_at_every_top_level_boundary shows its invariant at every
+    statement boundary of every run of every accepted program, under any collection schedule: so the two "exact" theorems
+    apply at top level as well (C03_break_exact_at_top_level). *)
+From Pakhi Require Import Base Float64 Syntax Tables Lexer Parser Interp.
+From Pakhi.Proofs Require Import Scope Control WF WFOps Frames FrameInv NoPanic ParseOk TopLevel.
 Local Open Scope nat_scope.
+
+(* every run, observed with any fuel (= at every statement boundary), is well formed and satisfies the frame invariant of
+   the top level: scope height = 1 + static block depth of the position; every active loop records that height at its
+   entry and its own closing continue; the position is inside each active loop; loops properly nested; no pending call *)
+Theorem C03_frame_invariant_at_every_top_level_boundary : forall fs cwd main_path pfuel src code platform w fuel sched,
+  front fs cwd main_path pfuel src = Ok code ->
+  let m := snd (run code fuel sched 0 (init_machine platform w)) in
+  mwf code m /\ finv code (top_frame code) m.
+Proof.
+  intros fs cwd main_path pfuel src code platform w fuel sched H.
+  destruct (front_output_ok fs cwd main_path pfuel src code H) as [Hok Hne].
+  apply (tinv_run code Hok fuel sched 0); [apply mwf_init; assumption|apply tinv_init].
+Qed.
+Print Assumptions C03_frame_invariant_at_every_top_level_boundary.
+
+Theorem C03_break_exact_at_top_level : forall code m l ls, finv code (top_frame code) m -> m_loops m = l :: ls ->
+  m_loop_base m < length (m_loops m) ->
+  finv code (top_frame code) (set_pc (set_loops (set_scopes m (truncate (l_depth l) (m_scopes m))) ls) (l_end l)) /\
+  l_depth l <= length (m_scopes m).
+Proof. intros code m l ls. apply finv_break. apply top_frame_static. Qed.
+Print Assumptions C03_break_exact_at_top_level.
+
+Theorem C03_continue_exact_at_top_level : forall code m l ls, finv code (top_frame code) m -> m_loops m = l :: ls ->
+  m_loop_base m < length (m_loops m) ->
+  finv code (top_frame code) (set_pc (set_scopes m (truncate (l_depth l) (m_scopes m))) (l_start l)) /\ l_depth l <= length (m_scopes m).
+Proof. intros code m l ls. apply finv_continue. apply top_frame_static. Qed.
+Print Assumptions C03_continue_exact_at_top_level.
 
 (* entering a loop records its end -- the statement after the closing আবার; of this loop's own block, found by
    bracket matching and therefore independent of any loop, continue statement or block inside the body -- and the
